@@ -164,6 +164,8 @@ class ReopenEngine(Engine):
         # entries of vanished files are dropped at open); information then comes from real analysis only
         swarm["validate_objectdb"] = rng.random() < 0.2
         swarm["late_enable_objectdb"] = rng.random() < 0.15
+        # the deprecated way of configuring the store: "memory" still means "as save_objectdb says"
+        swarm["objectdb_type"] = rng.choice([None] * 8 + ["memory", "shelve"])
         swarm["weights"]["set_limit"] = 0  # twins diverge once one of them is truncated at save: see the epilogue instead
         swarm["limit_epilogue"] = rng.random() < 0.3
         if swarm["validate_objectdb"]:
@@ -262,6 +264,8 @@ class ReopenEngine(Engine):
         if swarm.get("validate_objectdb"):
             prefs["validate_objectdb"] = True
             prefs["automatic_soa"] = True
+        if swarm.get("objectdb_type"):
+            prefs["objectdb_type"] = swarm["objectdb_type"]
         late = bool(swarm.get("late_enable_objectdb"))
         first = dict(prefs, save_objectdb=False) if late else prefs
         lib = SIBLING_LIB if swarm.get("sibling_lib") else None
